@@ -148,7 +148,7 @@ Lemma total_call_err : forall x err c s, total x (call_err err c s) = (total x s
 Proof.
   intros. destruct c as [|id|n r]; cbn [call_err cb_id]; rewrite ?cnt_nil; try lia.
   - change (emit (Fired id 0 err) s) with (fire (CbLocal id) 0 err s). apply total_fire.
-  - rewrite (total_view x _ _ (view_send n _ s)). lia.
+  - rewrite (total_cview x _ _ (cview_send n _ s)). lia.
 Qed.
 
 Lemma nd_call_err : forall err c s, nd (call_err err c s) = nd s.
@@ -274,26 +274,26 @@ Proof.
            rewrite !cnt_app, c_ids_aset_sub.
            ++ cbn [cb_id]. lia.
            ++ apply cview_inv in C3 as (_ & _ & C3 & _). rewrite C3. exact W1.
-      * split. { eapply wc_ok_cview; [apply view_cview, view_send|]. eapply wc_ok_cview; eauto. }
-        intros x. rewrite (total_view x _ _ (view_send _ _ _)). lia.
+      * split. { eapply wc_ok_cview; [apply cview_send|]. eapply wc_ok_cview; eauto. }
+        intros x. rewrite (total_cview x _ _ (cview_send _ _ _)). lia.
     + destruct cbk as [|id|rn rid].
       * split; auto. intros x. rewrite T1. lia.
       * split. { exact W1. }
         intros x. change (emit (Fired id 0 REQUEST_DENIED) s1) with (fire (CbLocal id) 0 REQUEST_DENIED s1).
         rewrite total_fire, T1. lia.
-      * split. { eapply wc_ok_cview; [apply view_cview, view_send|auto]. }
-        intros x. rewrite (total_view x _ _ (view_send _ _ _)), T1. lia.
+      * split. { eapply wc_ok_cview; [apply cview_send|auto]. }
+        intros x. rewrite (total_cview x _ _ (cview_send _ _ _)), T1. lia.
   - destruct (leader (nd s)) as [l|].
     + destruct cbk as [|id|rn rid].
-      * split. { eapply wc_ok_cview; [apply view_cview, view_send|auto]. }
-        intros x. rewrite (total_view x _ _ (view_send _ _ _)). lia.
-      * split. { eapply wc_ok_cview; [apply view_cview, view_send|]. exact W. }
-        intros x. rewrite (total_view x _ _ (view_send _ _ _)).
+      * split. { eapply wc_ok_cview; [apply cview_send|auto]. }
+        intros x. rewrite (total_cview x _ _ (cview_send _ _ _)). lia.
+      * split. { eapply wc_ok_cview; [apply cview_send|]. exact W. }
+        intros x. rewrite (total_cview x _ _ (cview_send _ _ _)).
         unfold total, node_ids. cbn [upd nd outs]. cbn. rewrite !cnt_app.
         pose proof (cnt_aset_le (fun c : cbref => cb_id c) x (local_ctr (nd s) + 1) (CbLocal id) (wait_reply (nd s))) as A.
         unfold r_ids. cbn [cb_id] in *. lia.
-      * split. { eapply wc_ok_cview; [apply view_cview, view_send|auto]. }
-        intros x. rewrite (total_view x _ _ (view_send _ _ _)). lia.
+      * split. { eapply wc_ok_cview; [apply cview_send|auto]. }
+        intros x. rewrite (total_cview x _ _ (cview_send _ _ _)). lia.
     + split. { unfold wc_ok. now rewrite nd_call_err. }
       intros x. rewrite total_call_err. lia.
 Qed.
@@ -419,7 +419,7 @@ Proof.
   set (s4 := fold_left (fun s x => send x (RequestVote (term (nd s3)) (last_idx (log (nd s3))) (last_term (log (nd s3)))) s)
                        (others (nd s3)) s3).
   assert (V4 : view_of s4 = view_of s).
-  { unfold s4. rewrite view_fold; auto. intros. apply view_send. }
+  { unfold s4. rewrite view_fold; auto. intros. now apply view_send. }
   assert (W4 : wc_ok s4) by (eapply wc_ok_cview; [apply view_cview; eauto|auto]).
   destruct (step_le_on_leader_changed s4 W4) as [W5 T5].
   assert (T4 : forall x, total x s4 = total x s) by (intros; now apply total_view).
@@ -552,7 +552,7 @@ Proof.
     destruct (llt <? last_term (log (nd s1))); [now apply K|].
     destruct ((llt =? last_term (log (nd s1))) && (lli <? last_idx (log (nd s1)))); [now apply K|].
     destruct (voted (nd s1)); [now apply K|].
-    apply K. rewrite (view_cview _ _ (view_send _ _ _)). exact V1.
+    apply K. rewrite cview_send. exact V1.
   - (* ResponseVote *)
     destruct ((role (nd (start_S e n)) =? CANDIDATE) && (t =? term (nd (start_S e n)))); [|apply K; reflexivity].
     match goal with |- context [if ?b then _ else _] => destruct b end.
